@@ -440,3 +440,5 @@ theorem exec_append (E : Env) (fs : FS) (h1 h2 : List Op) : exec E fs (h1 ++ h2)
   induction h1 generalizing fs with
   | nil => rfl
   | cons o h ih => simp [exec, ih]
+
+end IV.ClientState
